@@ -1353,8 +1353,8 @@ fn fault_part(prop: &str, a: &Args, oracle: crate::engines::fault::FaultOracle) 
             continue;
         }
         let desc = format!(
-            "[{}] fail {:?} #{} on {:?} files with {:?} :: {}",
-            v.spec.name, v.plan.op, v.plan.nth, v.plan.class, v.plan.kind, v.findings[0].detail
+            "[{}] fail {:?} #{} (x{}) on {:?} files with {:?} :: {}",
+            v.spec.name, v.plan.op, v.plan.nth, v.plan.repeat, v.plan.class, v.plan.kind, v.findings[0].detail
         );
         violations.push((json!({"engine": "fault", "spec": v.spec, "plan": v.plan, "findings": v.findings}), desc));
     }
@@ -1375,7 +1375,7 @@ fn fault_part(prop: &str, a: &Args, oracle: crate::engines::fault::FaultOracle) 
             "evaluations": r.stats.runs,
             "distinct_nontrivial": r.stats.distinct_outcomes,
             "oracle": format!("{oracle:?}"),
-            "rule": "for each history: one run per (operation kind in {create, open, write, sync, truncate, rename, remove, mkdir[, read]} x file class x n-th occurrence in the fault-free run x {ENOSPC, EIO, short write keeping 1 / half / all-but-one bytes}); distinct_nontrivial = distinct vectors of (per-step outcome, step at which the fault fired, quarantine count)",
+            "rule": "for each history: one run per (operation kind in {create, open, write, sync, truncate, rename, remove, mkdir[, read]} x file class x n-th occurrence in the fault-free run x {ENOSPC, EIO, short write keeping 1 / half / all-but-one bytes} x {single fault, the errno persisting over the next 1 (thorough: 2) matching operations}); distinct_nontrivial = distinct vectors of (per-step outcome, step at which the fault fired, quarantine count)",
             "samples": r.stats.samples,
             "exhaustive": true,
             "histories": r.stats.histories,
@@ -1383,7 +1383,7 @@ fn fault_part(prop: &str, a: &Args, oracle: crate::engines::fault::FaultOracle) 
             "violations_total": r.stats.violations,
             "violations_by_kind": by_kind,
         }),
-        assumptions: vec!["one fault per run; default schedule (background work runs to quiescence after each operation)".into()],
+        assumptions: vec!["one fault (or one burst of consecutive faults of one kind) per run; default schedule (background work runs to quiescence after each operation)".into()],
         wall_s: 0.0,
         violations,
         known: vec![],
